@@ -272,6 +272,9 @@ def analyse(fn, summaries=None, outer=None, qual=None, nested_out=None, want_ret
             b = base_name(tt)
             if src.get(b) and not is_fresh_entry(tt):
                 event(tt.lineno, '%s =' % ast.unparse(tt), src[b])
+            elif b is None and isinstance(_innermost(tt), ast.Call) and any(isinstance(n_, ast.Subscript) for n_ in _chain_of(tt)) and R(_innermost(tt), src):
+                # a store into the value of a call that may be (a view of) an argument:  x.ravel()[0] = v,  numpy.asarray(x)[i] = v
+                event(tt.lineno, '%s =' % ast.unparse(tt)[:50], R(_innermost(tt), src))
         elif isinstance(tt, ast.Name):
             r = R(val, src) if val is not None else set()
             if whole:
@@ -284,6 +287,8 @@ def analyse(fn, summaries=None, outer=None, qual=None, nested_out=None, want_ret
         if isinstance(s, ast.AugAssign):
             b = base_name(s.target)
             roots = set(A.get(b) or ())
+            if b is None and isinstance(_innermost(s.target), ast.Call) and any(isinstance(n_, ast.Subscript) for n_ in _chain_of(s.target)):
+                roots = set(R(_innermost(s.target), A))
             if isinstance(s.target, ast.Name): roots -= scalars
             if roots and not is_fresh_entry(s.target):
                 event(s.lineno, '%s %s=' % (ast.unparse(s.target), type(s.op).__name__), roots)
@@ -784,6 +789,479 @@ def all_set_order_sites():
                         out.append((rel, n.name, ev))
     return out
 
+# ---------------------------------------------------------------- writes through a possibly-copied handle (memory-layout dependence)
+# `h = x.ravel(); h[0] = v` writes into `x` only when `x` happens to be C-contiguous: `ravel` / `reshape` / `numpy.ascontiguousarray` /
+# `numpy.asarray(x, order=…)` return a VIEW for some memory layouts of `x` and a COPY for the others, so what the statement does to `x`
+# (and to everything that shares memory with it) depends on the layout of `x` — for a Fortran-ordered, transposed, reversed or sliced
+# `x` the write is silently lost.  (`x.flat[i] = v`, `x[idx] = v` always address the logical element.)  `x.flatten()` and fancy-indexed
+# temporaries `x[[…]]`, `x[x > 0]` are ALWAYS copies: a write into them that nothing reads afterwards is a lost write.  Every such
+# site of every function of the audited modules is tabled (`copyWrites`); Props/C20.lean states that there is none.
+_MAYBE_COPY_METHODS = {'ravel', 'reshape'}
+_ALWAYS_COPY_METHODS = {'flatten'}
+_MAYBE_COPY_NUMPY = {'ravel', 'reshape', 'ma.ravel', 'ma.reshape', 'ascontiguousarray', 'asfortranarray', 'require'}
+_ORDER_NUMPY = {'asarray', 'asanyarray', 'array', 'ma.asarray', 'ma.asanyarray', 'ma.array', 'ma.masked_array'}
+_FRESH_CONTIG_NUMPY = {'zeros', 'ones', 'empty', 'full', 'arange', 'linspace', 'logspace', 'identity', 'eye', 'indices',
+                       'ma.zeros', 'ma.ones', 'ma.empty', 'ma.make_mask_none', 'concatenate', 'outer', 'dot'}
+_FANCY_INDEX_NUMPY = {'where', 'nonzero', 'flatnonzero', 'argwhere', 'argsort', 'arange', 'array', 'asarray', 'logical_and', 'logical_or',
+                      'logical_not', 'logical_xor', 'isnan', 'isfinite', 'isinf', 'ma.getmaskarray', 'unique', 'searchsorted', 'argpartition'}
+_VIEW_METHODS = {'transpose', 'view', 'swapaxes', 'squeeze', 'diagonal'}
+_HANDLE_WRITING_METHODS = {'fill', 'sort', 'put', 'itemset', 'resize', 'partition', 'setfield', 'byteswap_inplace', '__setitem__', '__iadd__', '__isub__',
+                           '__imul__', 'mask_corners', 'unmask_all'}
+
+def _chain_of(t):
+    """the target and the expressions it is reached through, outermost first"""
+    c = [t]
+    while isinstance(c[-1], (ast.Subscript, ast.Attribute)): c.append(c[-1].value)
+    return c
+
+def _innermost(node):
+    """strip subscripts / attributes: x[i].a[j] -> x ; f(…)[i] -> the call"""
+    while isinstance(node, (ast.Subscript, ast.Attribute)):
+        node = node.value
+    return node
+
+def _is_fancy_index(ix, fancy_names):
+    """syntactically evident advanced indexing (the result of x[ix] is a copy)"""
+    if isinstance(ix, ast.Tuple):
+        return any(_is_fancy_index(e, fancy_names) for e in ix.elts)
+    if isinstance(ix, ast.List):
+        # a list of slices / None / Ellipsis is (old-style) basic indexing
+        basic = lambda e: (isinstance(e, ast.Call) and T.callee_name(e.func) == 'slice') or (isinstance(e, ast.Constant) and e.value in (None, Ellipsis)) \
+                          or (isinstance(e, ast.Attribute) and e.attr == 'newaxis') or isinstance(e, ast.Slice)
+        return not (ix.elts and all(basic(e) for e in ix.elts))
+    if isinstance(ix, (ast.ListComp, ast.Compare)): return True
+    if isinstance(ix, ast.UnaryOp) and isinstance(ix.op, ast.Invert): return _is_fancy_index(ix.operand, fancy_names) or True
+    if isinstance(ix, ast.BinOp) and isinstance(ix.op, (ast.BitAnd, ast.BitOr, ast.BitXor)):
+        return _is_fancy_index(ix.left, fancy_names) or _is_fancy_index(ix.right, fancy_names)
+    if isinstance(ix, ast.Call):
+        nn = numpy_name(T.callee_name(ix.func))
+        if nn in _FANCY_INDEX_NUMPY: return True
+        if isinstance(ix.func, ast.Attribute) and ix.func.attr in ('nonzero', 'argsort', 'ravel', 'flatten', 'astype', 'tolist'): return True
+    if isinstance(ix, ast.Attribute) and ix.attr == 'mask': return True
+    if isinstance(ix, ast.Name) and ix.id in fancy_names: return True
+    return False
+
+def copy_write_sites(fn, qual, summ=None, outer=None, out=None, counts=None):
+    """sites of `fn` (and of the functions nested in it) where something is written through a handle that may be, or always is, a copy
+    of the array it was taken from.  State (forward, in source order; branches joined by union, loop bodies visited twice):
+      H     : name -> (kind, source text of the handle expression, line)   kind = 'view-if-contiguous' | 'always-copy'
+      fresh : names bound to a freshly allocated C-contiguous array (numpy.zeros(…), x.copy(), …): `ravel`/`reshape(-1)` of those is a view
+      fancy : names bound to index arrays / boolean masks
+    Returns the list `out` of (qualified function, text)."""
+    out = [] if out is None else out
+    counts = counts if counts is not None else {}
+    summ = summ or {}
+    H = {k: v for k, v in (outer or ({}, set(), set()))[0].items()}
+    fresh = set((outer or ({}, set(), set()))[1]); fancy = set((outer or ({}, set(), set()))[2])
+    for p_ in param_names(fn)[1]:
+        H.pop(p_, None); fresh.discard(p_); fancy.discard(p_)
+    cand = []          # (lineno, text, handle name or None, kind)
+    def is_fresh_contig(e, fresh):
+        if isinstance(e, ast.Name): return e.id in fresh
+        if isinstance(e, ast.Call):
+            nn = numpy_name(T.callee_name(e.func))
+            if nn in _FRESH_CONTIG_NUMPY: return True
+            if isinstance(e.func, ast.Attribute) and e.func.attr == 'copy' and not e.keywords and not e.args: return True
+            if nn in ('copy',) and not _kw(e, 'order'): return True
+            if isinstance(e.func, ast.Attribute) and e.func.attr in _MAYBE_COPY_METHODS | _ALWAYS_COPY_METHODS and not _kw(e, 'order'):
+                # ravel / reshape / flatten of a fresh contiguous array is contiguous (a view of it, or a new C-ordered copy)
+                return e.func.attr in _ALWAYS_COPY_METHODS or is_fresh_contig(e.func.value, fresh)
+        return False
+    def handle_of(e, H, fresh, fancy):
+        """(kind, text) if the value of `e` may be / is a copy of an existing array through which the code may still mean that array"""
+        if isinstance(e, ast.Name):
+            return H.get(e.id)
+        if isinstance(e, ast.Attribute):
+            if e.attr in ('T', 'real', 'imag', 'data', 'mask', '_mask', '_data', 'flat'):
+                return handle_of(e.value, H, fresh, fancy)
+            return None
+        if isinstance(e, ast.Subscript):
+            if _is_fancy_index(e.slice, fancy):
+                counts['handles'] = counts.get('handles', 0) + 1
+                return ('always-copy', ast.unparse(e)[:60], e.lineno)
+            return handle_of(e.value, H, fresh, fancy)
+        if isinstance(e, ast.IfExp):
+            return handle_of(e.body, H, fresh, fancy) or handle_of(e.orelse, H, fresh, fancy)
+        if isinstance(e, ast.Call):
+            nn = numpy_name(T.callee_name(e.func))
+            first = e.args[0] if e.args else None
+            if isinstance(e.func, ast.Attribute) and nn is None:
+                recv = e.func.value
+                if e.func.attr in _MAYBE_COPY_METHODS:
+                    counts['handles'] = counts.get('handles', 0) + 1
+                    if is_fresh_contig(recv, fresh) and not _kw(e, 'order'): return None
+                    return ('view-if-contiguous', ast.unparse(e)[:60], e.lineno)
+                if e.func.attr in _ALWAYS_COPY_METHODS:
+                    counts['handles'] = counts.get('handles', 0) + 1
+                    return ('always-copy', ast.unparse(e)[:60], e.lineno)
+                if e.func.attr in _VIEW_METHODS:
+                    return handle_of(recv, H, fresh, fancy)
+                return None
+            if nn in _MAYBE_COPY_NUMPY and first is not None:
+                counts['handles'] = counts.get('handles', 0) + 1
+                if is_fresh_contig(first, fresh) and not _kw(e, 'order'): return None
+                return ('view-if-contiguous', ast.unparse(e)[:60], e.lineno)
+            if nn in _ORDER_NUMPY and first is not None and _kw(e, 'order') is not None:
+                c = _kw(e, 'copy')
+                if nn == 'array' and (c is None or (isinstance(c, ast.Constant) and c.value is True)):
+                    return None                       # numpy.array(x, order=…) copies by default
+                counts['handles'] = counts.get('handles', 0) + 1
+                return ('view-if-contiguous', ast.unparse(e)[:60], e.lineno)
+            if nn in _ALIASING_NUMPY and first is not None:
+                return handle_of(first, H, fresh, fancy)
+        return None
+    def site(lineno, text, h, name):
+        cand.append((lineno, '%d: %s  [through %s, a %s of its array (line %d)]' % (
+            lineno, text[:70], h[1], 'view only for a C-contiguous array, else a copy' if h[0] == 'view-if-contiguous' else 'copy', h[2]), name, h[0]))
+    def target_handle(t, H, fresh, fancy):
+        """the handle a store into target `t` goes through: (handle, name or None)"""
+        if not isinstance(t, (ast.Subscript, ast.Attribute)): return None, None
+        if not any(isinstance(n, ast.Subscript) for n in _chain(t)): return None, None
+        inner = _innermost(t)
+        if isinstance(inner, ast.Name):
+            # x[fancy][i] = v : the inner subscription is a temporary copy
+            for n in _chain(t)[1:]:
+                if isinstance(n, ast.Subscript) and _is_fancy_index(n.slice, fancy):
+                    return ('always-copy', ast.unparse(n)[:60], n.lineno), None
+            return (H.get(inner.id), inner.id) if inner.id in H else (None, None)
+        if isinstance(inner, ast.Call):
+            # f(…)[i] = v : attributes/subscripts applied to the call's value, e.g. x.ravel()[0] = v
+            chain = _chain(t)
+            # `x.flat[...]` is not a call; a call here is the base itself
+            h = handle_of(inner, H, fresh, fancy)
+            return (h, None) if h else (None, None)
+        return None, None
+    _chain = _chain_of
+    def writes_of(s, H, fresh, fancy):
+        if isinstance(s, (ast.Assign, ast.AnnAssign, ast.AugAssign)):
+            targets = s.targets if isinstance(s, ast.Assign) else [s.target]
+            flat = []
+            for t in targets:
+                flat += list(t.elts) if isinstance(t, (ast.Tuple, ast.List)) else [t]
+            for t in flat:
+                h, nm = target_handle(t, H, fresh, fancy)
+                if h: site(s.lineno, ast.unparse(t) + (' =' if not isinstance(s, ast.AugAssign) else ' %s=' % type(s.op).__name__), h, nm)
+                if isinstance(s, ast.AugAssign) and isinstance(t, ast.Name) and t.id in H:
+                    site(s.lineno, '%s %s=' % (t.id, type(s.op).__name__), H[t.id], t.id)
+        elif isinstance(s, ast.Delete):
+            pass
+        exprs = [s.iter] if isinstance(s, (ast.For, ast.AsyncFor)) else [s.test] if isinstance(s, (ast.If, ast.While)) else \
+                [i.context_expr for i in s.items] if isinstance(s, (ast.With, ast.AsyncWith)) else [] if isinstance(s, ast.Try) else [s]
+        stack = list(exprs)
+        while stack:
+            node = stack.pop()
+            for ch in ast.iter_child_nodes(node):
+                if isinstance(ch, (ast.FunctionDef, ast.AsyncFunctionDef, ast.ClassDef)): continue
+                stack.append(ch)
+            if not isinstance(node, ast.Call): continue
+            fnm = T.callee_name(node.func)
+            if isinstance(node.func, ast.Attribute) and node.func.attr in _HANDLE_WRITING_METHODS | {'fill', 'sort'}:
+                h = handle_of(node.func.value, H, fresh, fancy)
+                if h: site(node.lineno, ast.unparse(node.func) + '(…)', h, node.func.value.id if isinstance(node.func.value, ast.Name) else None)
+            nn = numpy_name(fnm)
+            if nn in _WRITING_NUMPY and len(node.args) > _WRITING_NUMPY[nn]:
+                a = node.args[_WRITING_NUMPY[nn]]; h = handle_of(a, H, fresh, fancy)
+                if h: site(node.lineno, '%s(%s, …)' % (fnm, ast.unparse(a)[:30]), h, a.id if isinstance(a, ast.Name) else None)
+            o = _kw(node, 'out')
+            if o is not None:
+                h = handle_of(o, H, fresh, fancy)
+                if h: site(node.lineno, '%s(…, out=%s)' % (fnm, ast.unparse(o)[:30]), h, o.id if isinstance(o, ast.Name) else None)
+            if fnm and INPLACE_KERNEL.match(fnm) and node.args:
+                h = handle_of(node.args[0], H, fresh, fancy)
+                if h: site(node.lineno, '%s(%s, …)' % (fnm, ast.unparse(node.args[0])[:30]), h, node.args[0].id if isinstance(node.args[0], ast.Name) else None)
+            if fnm in summ and fnm not in NON_PROPAGATING:
+                cpos, cmut = summ[fnm][0], summ[fnm][1]
+                for pn, a in bind_args(node, cpos, callee_offset(fnm, cpos)):
+                    if pn in cmut:
+                        h = handle_of(a, H, fresh, fancy)
+                        if h: site(node.lineno, '%s(… %s …) modifies its parameter %s' % (fnm, ast.unparse(a)[:30], pn), h, a.id if isinstance(a, ast.Name) else None)
+    def bind(s, H, fresh, fancy):
+        if isinstance(s, (ast.Assign, ast.AnnAssign)) and s.value is not None:
+            targets = s.targets if isinstance(s, ast.Assign) else [s.target]
+            for t in targets:
+                if isinstance(t, ast.Name):
+                    h = handle_of(s.value, H, fresh, fancy)
+                    fr = is_fresh_contig(s.value, fresh)
+                    fa = _is_fancy_index(s.value, fancy)
+                    H.pop(t.id, None); fresh.discard(t.id); fancy.discard(t.id)
+                    if h: H[t.id] = h
+                    if fr: fresh.add(t.id)
+                    if fa: fancy.add(t.id)
+                elif isinstance(t, (ast.Tuple, ast.List)):
+                    for x in t.elts:
+                        if isinstance(x, ast.Name):
+                            H.pop(x.id, None); fresh.discard(x.id); fancy.discard(x.id)
+        elif isinstance(s, (ast.For, ast.AsyncFor)):
+            for x in ast.walk(s.target):
+                if isinstance(x, ast.Name):
+                    H.pop(x.id, None); fresh.discard(x.id); fancy.discard(x.id)
+    def join(a, b):
+        Ha, fa, xa = a; Hb, fb, xb = b
+        Hn = dict(Hb); Hn.update(Ha)
+        return Hn, fa & fb, xa | xb
+    def walk(stmts, st):
+        H, fresh, fancy = st
+        for s in stmts:
+            if isinstance(s, (ast.FunctionDef, ast.AsyncFunctionDef)):
+                copy_write_sites(s, '%s.%s' % (qual, s.name), summ, (dict(H), set(fresh), set(fancy)), out, counts)
+                continue
+            if isinstance(s, ast.ClassDef): continue
+            writes_of(s, H, fresh, fancy)
+            bind(s, H, fresh, fancy)
+            if isinstance(s, (ast.For, ast.AsyncFor, ast.While)):
+                st1 = (dict(H), set(fresh), set(fancy))
+                for _ in range(2):
+                    st2 = walk(s.body, (dict(st1[0]), set(st1[1]), set(st1[2])))
+                    st1 = join(st1, st2)
+                st3 = walk(s.orelse, (dict(st1[0]), set(st1[1]), set(st1[2]))) if s.orelse else st1
+                H, fresh, fancy = join(st1, st3)
+            elif isinstance(s, ast.If):
+                a = walk(s.body, (dict(H), set(fresh), set(fancy))); b = walk(s.orelse, (dict(H), set(fresh), set(fancy)))
+                H, fresh, fancy = join(a, b)
+            elif isinstance(s, (ast.With, ast.AsyncWith)):
+                H, fresh, fancy = walk(s.body, (H, fresh, fancy))
+            elif isinstance(s, ast.Try) or type(s).__name__ == 'TryStar':
+                a = walk(s.body + s.orelse, (dict(H), set(fresh), set(fancy)))
+                cur = join((H, fresh, fancy), a)
+                for h_ in s.handlers: cur = join(cur, walk(h_.body, (dict(cur[0]), set(cur[1]), set(cur[2]))))
+                if s.finalbody: cur = walk(s.finalbody, cur)
+                H, fresh, fancy = cur
+        return H, fresh, fancy
+    counts['functions'] = counts.get('functions', 0) + 1
+    walk(fn.body, (H, fresh, fancy))
+    # a write into an always-copy handle is a lost write only if nothing reads the handle afterwards
+    own_nodes = []
+    def collect(n):
+        for ch in ast.iter_child_nodes(n):
+            if isinstance(ch, (ast.FunctionDef, ast.AsyncFunctionDef, ast.ClassDef)): continue
+            own_nodes.append(ch); collect(ch)
+    collect(fn)
+    store_bases = set()
+    for n in own_nodes:
+        ts = n.targets if isinstance(n, ast.Assign) else [n.target] if isinstance(n, (ast.AugAssign, ast.AnnAssign)) else []
+        for t in ts:
+            for x in (t.elts if isinstance(t, (ast.Tuple, ast.List)) else [t]):
+                if isinstance(x, (ast.Subscript, ast.Attribute)) and isinstance(_innermost(x), ast.Name): store_bases.add(id(_innermost(x)))
+    seen = set()
+    for lineno, text, name, kind in cand:
+        if kind == 'always-copy' and name is not None:
+            reads = [n for n in own_nodes if isinstance(n, ast.Name) and n.id == name and isinstance(n.ctx, ast.Load) and id(n) not in store_bases]
+            if reads: continue
+        if text in seen: continue
+        seen.add(text); out.append((qual, text))
+    return out
+
+def all_copy_write_sites(trees, summs, counts=None):
+    out = []
+    for rel, tree in trees:
+        def scan(body, prefix):
+            for n in body:
+                if isinstance(n, (ast.FunctionDef, ast.AsyncFunctionDef)):
+                    for q, text in copy_write_sites(n, prefix + n.name, summs.get(rel) if summs else None, counts=counts):
+                        out.append((rel, q, text))
+                elif isinstance(n, ast.ClassDef):
+                    scan(n.body, prefix + n.name + '.')
+        scan(tree.body, '')
+    return out
+
+# the scanner's own test: one function per member of the class (`flag_*` must be tabled, `clean_*` must not); the verdicts are emitted
+# as `copyWriteSelfTest` and Props/C20.lean states that they are as the names say (so a scanner that sees nothing proves nothing)
+_COPYWRITE_SELFTEST = """
+import numpy
+class K:
+    def flag_ravel_handle(self):
+        corners = self.mask.ravel()
+        corners[0] = corners[-1] = True
+    def flag_ravel_direct(self):
+        self.mask.ravel()[0] = True
+    def flag_flatten_lost(self):
+        c = self.mask.flatten()
+        c[0] = True
+    def clean_flat(self):
+        self.mask.flat[0] = self.mask.flat[-1] = True
+    def clean_direct(self):
+        self.mask[tuple([slice(None)] * self.ndim)] = False
+    def clean_explicit_copy(self):
+        means = self.ravel().copy()
+        means[self.mask.ravel()] = 1
+        return means
+def flag_reshape_handle(x):
+    m = x.reshape(-1)
+    m[0] = 1
+def flag_numpy_ravel(x):
+    m = numpy.ravel(x)
+    m[0] = 1
+def flag_ascontiguous(x):
+    y = numpy.ascontiguousarray(x)
+    y[0] = 1
+def flag_asarray_order(x):
+    y = numpy.asarray(x, order='C')
+    y += 1
+def flag_require_fill(x):
+    y = numpy.require(x, requirements='C')
+    y.fill(0)
+def flag_flatten_direct(x):
+    x.flatten()[0] = 1
+def flag_fancy_direct(x):
+    x[[0, 2]][1] = 5
+def flag_fancy_bool_direct(x):
+    x[x > 0][0] = 5
+def flag_fancy_named_lost(x, y):
+    idx = numpy.where(y > 0)
+    t = x[idx]
+    t[0] = 1
+def flag_one_branch(x, c):
+    if c:
+        h = x.ravel()
+    else:
+        h = x.copy()
+    h[0] = 1
+def flag_loop_carried(x, n):
+    h = x.copy()
+    for i in range(n):
+        h[i] = 0
+        h = x.ravel()
+def flag_copyto(x, v):
+    numpy.copyto(x.ravel(), v)
+def flag_out(x, a, b):
+    numpy.add(a, b, out=x.reshape(-1))
+def flag_view_of_handle(x):
+    h = x.ravel()
+    g = h[1:]
+    g[0] = 1
+def flag_transposed_receiver(x):
+    h = x.T.ravel()
+    h[0] = 1
+def flag_closure(x):
+    h = x.ravel()
+    def inner(i):
+        h[i] = 0
+    return inner
+def flag_kernel(phi, xx):
+    int_c.implicit_1Dx(numpy.ascontiguousarray(phi), xx)
+def flag_fresh_unknown_layout(a, b):
+    t = a + b
+    h = t.ravel()
+    h[0] = 1
+    return t
+def clean_fresh(n):
+    a = numpy.zeros((n, n))
+    r = a.ravel()
+    r[0] = 1
+    return a
+def clean_fresh_copy(x):
+    a = x.copy()
+    r = a.reshape(-1)
+    r[0] = 1
+    return a
+def clean_flatten_used(x):
+    v = x.flatten()
+    v[0] = 0
+    return v.sum()
+def clean_scatter(x, idx):
+    x[idx] = 0
+    x[x > 0] = 1
+    x[[0, 1]] = 2
+def clean_rebound(x):
+    h = x.ravel()
+    h = h.copy()
+    h[0] = 1
+    return h
+def clean_read_only(x, y):
+    s = 0
+    for a, b in zip(x.ravel(), y.ravel()):
+        s += a * b
+    return s
+def clean_nested_index(phi, ii, jj):
+    phi[ii][jj] = 0
+    phi[ii, :][jj] = 0
+def clean_reshape_after_write(x, bad, shape):
+    samp = numpy.random.poisson(x)
+    samp[bad.ravel()] = 0
+    samp = samp.reshape(shape)
+    return samp
+def clean_slices(x, n):
+    sl = [slice(None)] * n
+    x[tuple(sl)][0] = 1
+"""
+
+def copy_write_selftest():
+    tree = ast.parse(_COPYWRITE_SELFTEST)
+    out = []
+    def scan(body):
+        for n in body:
+            if isinstance(n, ast.FunctionDef):
+                out.append((n.name, bool(copy_write_sites(n, n.name))))
+            elif isinstance(n, ast.ClassDef):
+                scan(n.body)
+    scan(tree.body)
+    return out
+
+# ---------------------------------------------------------------- in-place writes of the Spectrum methods into their own mask / data
+# Closed language: `self.<attr>[<idx>] = … = <bool>` (direct), `self.<attr>.flat[<idx>] = …`, `h = self.<attr>.ravel()|.flatten(); h[<idx>] = …`,
+# `self.<attr>.ravel()[<idx>] = …`; <idx> an integer literal or "everything" (`:`, `...`, `tuple([slice(None)]*self.Npop)`).  The model
+# (Driver/Memo.lean `applyWrites`) executes these rows on a strided array; Props/C20.lean proves the result independent of the layout.
+_SELF_ARRAYS = ('mask', '_mask', 'data', '_data')
+def mask_write_rows(tree):
+    rows = []
+    def self_array(e):
+        return isinstance(e, ast.Attribute) and e.attr in _SELF_ARRAYS and isinstance(e.value, ast.Name) and e.value.id == 'self'
+    def index_of(ix, fn):
+        if isinstance(ix, ast.Constant) and isinstance(ix.value, int) and not isinstance(ix.value, bool): return '.idx %d' % ix.value if ix.value >= 0 else '.idx (%d)' % ix.value
+        if isinstance(ix, ast.UnaryOp) and isinstance(ix.op, ast.USub) and isinstance(ix.operand, ast.Constant) and isinstance(ix.operand.value, int):
+            return '.idx (-%d)' % ix.operand.value
+        if isinstance(ix, ast.Constant) and ix.value is Ellipsis: return '.all'
+        if isinstance(ix, ast.Slice) and ix.lower is None and ix.upper is None and ix.step is None: return '.all'
+        txt = re.sub(r'\s+', '', ast.unparse(ix))
+        if txt in ('tuple([slice(None)]*self.Npop)', 'tuple([slice(None)]*self.ndim)', 'slice(None)', '(slice(None),)*self.ndim', '(slice(None),)*self.Npop'): return '.all'
+        raise T.TranslateError('%s: index %s of an in-place write into the spectrum is outside the closed language' % (fn, txt))
+    def value_of(v, fn):
+        if isinstance(v, ast.Constant) and isinstance(v.value, bool): return 'true' if v.value else 'false'
+        raise T.TranslateError('%s: value %s written into the spectrum is outside the closed language' % (fn, ast.unparse(v)[:40]))
+    def handle_expr(e, fn):
+        """(attr, handle) if `e` is self.<attr>, self.<attr>.flat, self.<attr>.ravel(), self.<attr>.flatten()"""
+        if self_array(e): return e.attr, '.direct'
+        if isinstance(e, ast.Attribute) and e.attr == 'flat' and self_array(e.value): return e.value.attr, '.flat'
+        if isinstance(e, ast.Call) and isinstance(e.func, ast.Attribute) and self_array(e.func.value):
+            if e.func.attr in ('ravel', 'flatten') and not e.args and not e.keywords: return e.func.value.attr, '.' + e.func.attr
+            if e.func.attr in ('reshape', 'view', 'transpose', 'swapaxes', 'squeeze', 'astype', 'copy') or True:
+                return e.func.value.attr, None
+        return None
+    for c in tree.body:
+        if not (isinstance(c, ast.ClassDef) and c.name == 'Spectrum'): continue
+        for m in c.body:
+            if not isinstance(m, ast.FunctionDef): continue
+            fn = 'Spectrum.' + m.name
+            handles = {}
+            own = []
+            def collect(n):
+                for ch in ast.iter_child_nodes(n):
+                    if isinstance(ch, (ast.FunctionDef, ast.ClassDef)): continue
+                    own.append(ch); collect(ch)
+            collect(m)
+            for s in sorted((n for n in own if isinstance(n, (ast.Assign, ast.AugAssign))), key=lambda n: (n.lineno, n.col_offset)):
+                targets = s.targets if isinstance(s, ast.Assign) else [s.target]
+                if isinstance(s, ast.Assign) and len(targets) == 1 and isinstance(targets[0], ast.Name):
+                    he = handle_expr(s.value, fn)
+                    if he is not None and he[1] != '.direct': handles[targets[0].id] = he
+                    else: handles.pop(targets[0].id, None)
+                    continue
+                for t in targets:
+                    if not isinstance(t, ast.Subscript): continue
+                    base = t.value
+                    he = handles.get(base.id) if isinstance(base, ast.Name) else handle_expr(base, fn)
+                    if he is None: continue
+                    # a store outside the closed language (another handle — reshape, view, … —, a computed index or value, an augmented
+                    # assignment) is tabled as `.other`: the model refuses it and Props/C20.lean cannot prove it layout-free
+                    try:
+                        if isinstance(s, ast.AugAssign) or he[1] is None or (he[1] == '.direct' and index_of(t.slice, fn) != '.all'):
+                            raise T.TranslateError('outside the closed language')
+                        row = (he[1], index_of(t.slice, fn), value_of(s.value, fn))
+                    except T.TranslateError:
+                        row = ('.other', '.all', 'false')
+                    rows.append('  { fn := %s, attr := %s, handle := %s, index := %s, value := %s }' % ((json.dumps(fn), json.dumps(he[0].lstrip('_'))) + row))
+    return rows
+
 def lstr(xs):
     return '[' + ', '.join(json.dumps(x) for x in xs) + ']'
 
@@ -834,6 +1312,25 @@ def generate():
         '  { module := %s, fn := %s, mutatesArg := %s, returnsAlias := %s, evidence := %s }' % (
             json.dumps(e['module']), json.dumps(e['fn']), 'true' if e['mut'] else 'false', 'true' if e['ret'] else 'false', lstr(e['ev']))
         for e in effects) + '\n]')
+    counts = {}
+    cw = all_copy_write_sites([(rel, tree) for rel, _, _, tree in trees], summs, counts)
+    out.append('/-- modules scanned for writes through a possibly-copied handle (every function, method and nested function of each) -/')
+    out.append('def copyWriteModules : List String := ' + lstr([rel for rel, _, _, _ in trees]))
+    out.append('def copyWriteFunctions : Nat := %d' % counts.get('functions', 0))
+    out.append('/-- handle-creating expressions seen (`ravel`, `reshape`, `flatten`, `ascontiguousarray`, `asarray(order=)`, fancy-indexed temporaries) -/')
+    out.append('def copyHandleExprs : Nat := %d' % counts.get('handles', 0))
+    out.append('/-- (module, function, site): a store / in-place operation through a handle that is a view of its array only for some memory\n'
+               '    layouts (`x.ravel()`, `x.reshape(…)`, `numpy.ascontiguousarray(x)`, `numpy.asarray(x, order=…)`) — so what happens to the array depends\n'
+               '    on its layout — or through an always-copied temporary (`x.flatten()`, `x[[…]]`, `x[x > 0]`) that nothing reads afterwards -/')
+    out.append('def copyWrites : List (String × String × String) := [' + ', '.join('(%s, %s, %s)' % (json.dumps(a), json.dumps(b), json.dumps(c)) for a, b, c in cw) + ']')
+    out.append('/-- verdicts of the same scanner on its built-in test functions: (name, must it be tabled — `flag_*` yes, `clean_*` no —, was it tabled) -/')
+    out.append('def copyWriteSelfTest : List (String × Bool × Bool) := [' + ', '.join('(%s, %s, %s)' % (json.dumps(a), 'true' if a.startswith('flag_') else 'false', 'true' if b else 'false') for a, b in copy_write_selftest()) + ']')
+    out.append('inductive Handle where\n  | direct\n  | flat\n  | ravel\n  | flatten\n  | other\nderiving DecidableEq, Repr')
+    out.append('inductive WIndex where\n  | idx (i : Int)\n  | all\nderiving DecidableEq, Repr')
+    out.append('structure MaskWrite where\n  fn : String\n  attr : String\n  handle : Handle\n  index : WIndex\n  value : Bool\nderiving DecidableEq, Repr')
+    out.append('/-- in-place writes of the Spectrum methods into their own mask / data, in program order -/')
+    sm = [tree for rel, _, _, tree in trees if rel == 'Spectrum_mod.py'][0]
+    out.append('def maskWrites : List MaskWrite := [\n' + ',\n'.join(mask_write_rows(sm)) + '\n]')
     so = all_set_order_sites()
     out.append('/-- places (module, function, what) where the iteration order of a set can reach a result -/')
     out.append('def setOrderSites : List (String × String × String) := [' + ', '.join('(%s, %s, %s)' % (json.dumps(a), json.dumps(b), json.dumps(c)) for a, b, c in so) + ']')
